@@ -45,7 +45,8 @@ MANIFEST_ENTRY = {
     "text": "Theorems: resolve1 returns the end of every chain of <= 100 references and the default on every cycle; "
             "guarded descents (forms, number/name tree Kids) terminate on every finite object graph, cyclic or not, at "
             "depth <= number of objects + 1; CMap and W ranges take <= 65536 steps and are exact below the limit. "
-            "Observed fault by fault over three seed documents: no hang, no RecursionError, no leaked internal error, work "
+            "Observed fault by fault over three seed documents and over the trailer / cross-reference-stream / object-stream "
+            "dictionaries of a two-revision file: no hang, no RecursionError, no leaked internal error, work "
             "within budget (the one recorded exception: work proportional to the page area in the layout plane).",
     "note": "Trusted: Coq kernel, hand model tied by differential runs, the fault enumerator and classifier.",
     "design_ref": "DESIGN.md section 4, C13",
@@ -321,6 +322,74 @@ def fault_cases(ctx, per_seed, ntrunc):
     logging.disable(logging.NOTSET)
 
 
+def struct_cases(ctx, limit):
+    """single faults in the dictionaries the FILE STRUCTURE is made of: trailers, cross-reference streams, object streams
+    (two revisions: a cross-reference stream with object streams, then a hybrid update)"""
+    import logging
+    import random
+    from pdfwriter import write_history
+    logging.disable(logging.CRITICAL)
+    eps = entry_points()
+    objs = seed1()
+    rev1 = {"defs": objs, "form": "stream", "packed": {1, 2, 3, 7, 8, 30, 31}, "root": 1}
+    rev2 = {"defs": {3: dict(objs[3], Rotate=90), 8: objs[8], 40: {"K": 1}}, "form": "hybrid", "packed": {8, 40}, "root": 1}
+
+    def build(mutate):
+        return write_history([dict(rev1), dict(rev2)], random.Random(7), mutate=mutate)[0]
+    sites = []
+
+    def record(kind, d):
+        idx = sum(1 for s in sites if s[0] == kind and s[2] is None)
+        sites.append((kind, idx, None))
+        for k, v in d.items():
+            sites.append((kind, idx, k))
+            if isinstance(v, list):
+                sites.extend((kind, idx, (k, j)) for j in range(len(v)))
+    pdf0 = build(record)
+    import re as _re
+    offsets = [int(m) for m in _re.findall(rb"startxref\s+(\d+)", pdf0)]
+    base = {}
+    for ename, fn in eps:
+        cls, det, calls = run_budgeted(fn, pdf0, 10 ** 9)
+        base[ename] = calls
+        ctx.case("seed", ("struct", ename), nontrivial=True, sample={"seed": "struct", "entry": ename, "outcome": cls, "calls": calls})
+        if cls != "ok":
+            ctx.violation("seed", {"seed": "struct", "entry": ename}, "ok", (cls, det), "the undamaged structural seed does not extract")
+    jobs = [(kind, idx, key, rep) for kind, idx, key in sites if key is not None for rep in REPL if rep not in ("SELF", "CYCLE")]
+    # offsets that lead back to a section already read (cycles of /Prev and /XRefStm)
+    jobs += [(kind, idx, key, off) for kind, idx, key in sites if key in ("Prev", "XRefStm") for off in offsets]
+    jobs += [(kind, idx, "Prev", off) for kind, idx, key in sites if key is None and kind in ("trailer", "xrefstream") for off in offsets]
+    r = ctx.sub("structfaults")
+    r.shuffle(jobs)
+    if limit:
+        jobs = jobs[:limit]
+    for kind, idx, key, rep in jobs:
+        seen = {}
+
+        def mutate(k, d, kind=kind, idx=idx, key=key, rep=rep):
+            i = seen.get(k, 0)
+            seen[k] = i + 1
+            if k == kind and i == idx:
+                val = Ref(99999) if rep == "MISSING" else rep
+                if isinstance(key, tuple):
+                    if key[0] in d and isinstance(d[key[0]], list) and key[1] < len(d[key[0]]):
+                        d[key[0]] = list(d[key[0]])
+                        if rep == "REMOVE":
+                            del d[key[0]][key[1]]
+                        else:
+                            d[key[0]][key[1]] = val
+                elif rep == "REMOVE":
+                    d.pop(key, None)
+                elif key in d or key == "Prev":
+                    d[key] = val
+        try:
+            pdf = build(mutate)
+        except Exception:  # noqa  (the writer itself needs some entries, e.g. integer widths)
+            continue
+        one(ctx, eps, base, "struct", {"seed": "struct", "dict": "%s#%d" % (kind, idx), "key": key, "fault": repr(rep)}, pdf)
+    logging.disable(logging.NOTSET)
+
+
 def one(ctx, eps, base, sname, inp, pdf):
     for ename, fn in eps:
         budget = 40 * base[ename] + 200000
@@ -400,6 +469,7 @@ def guard_cases(ctx, n):
 def correspondence(ctx):
     guard_cases(ctx, ctx.n(60, 600))
     fault_cases(ctx, ctx.n(220, 0), ctx.n(12, 60))
+    struct_cases(ctx, ctx.n(60, 0))
 
 
 def oracle(ctx):
